@@ -30,9 +30,22 @@ func vConfig() (Config, vCfgT) {
 	return cfg, c
 }
 
+// vItemCtr numbers the item() calls of a path (for the forked value length in key-only-comparator mode)
+var vItemCtr int
+
 func (c vCfgT) item(k, v byte) []byte {
 	if c.kv {
-		return KVToBytes([]byte{k}, []byte{v})
+		// the value is 1..vlens bytes long (forked per call), so equal keys come with different total lengths
+		vl := 1
+		if n := vBound("vlens"); n > 1 {
+			vl = 1 + vChoice("vlen", vItemCtr, n)
+			vItemCtr++
+		}
+		val := make([]byte, vl)
+		for i := range val {
+			val[i] = v
+		}
+		return KVToBytes([]byte{k}, val)
 	}
 	return []byte{k}
 }
@@ -48,8 +61,13 @@ func (c vCfgT) val(v byte) int {
 // key/value of an item's bytes as the harness encodes them
 func (c vCfgT) decode(bs []byte) (k, v int, ok bool) {
 	if c.kv {
-		if len(bs) != 4 || bs[0] != 1 || bs[1] != 0 {
+		if len(bs) < 4 || bs[0] != 1 || bs[1] != 0 {
 			return 0, 0, false
+		}
+		for i := 4; i < len(bs); i++ {
+			if bs[i] != bs[3] {
+				return 0, 0, false
+			}
 		}
 		return int(bs[2]), int(bs[3]), true
 	}
